@@ -10,6 +10,7 @@ real code: cog's pipeline generates Go and Python for each schema rendered as JS
 import collections
 import json
 import os
+import re
 
 from vlib import core
 from checks import semantics_common as sc
@@ -53,7 +54,7 @@ def select_for(ctx, replay):
     def select(cat):
         if replay:
             return [replay["schema_id"]]
-        dids = sorted(i for i in cat if i > pc.ID_BASE)
+        dids = sorted(i for i in cat if pc.ID_BASE < i < pc.DEEP_BASE)
         base = sorted(i for i in cat if i < pc.ID_BASE and has_constrained(cat[i]["schema"]))
         if ctx.quick():
             # every schema of the defaults catalogue (one default per schema: nothing can be sliced away without losing a
@@ -63,7 +64,10 @@ def select_for(ctx, replay):
             import random
             random.Random(ctx.seed).shuffle(rest)
             return dids + fixed + rest[:4]
-        return dids + base
+        # thorough: + SemanticsDefaultsDeepMC (further value types x further positions, spellings) + the seeded generated schemas
+        deep = sorted(i for i in cat if pc.DEEP_BASE < i < pc.GEN_BASE)
+        gen = sorted(i for i in cat if i > pc.GEN_BASE and has_constrained(cat[i]["schema"]))
+        return [i for i in dids if i < pc.DEEP_BASE] + base + deep + gen
     return select
 
 
@@ -94,14 +98,17 @@ def run(ctx):
     if ctx.replay:
         replay = json.load(open(ctx.replay))["replay"]
         formats = (replay["format"],)
-    batch = pc.run_batch(ctx, select_for(ctx, replay), want_defaults=True, formats=formats)
+        if replay["schema_id"] > pc.GEN_BASE:
+            ctx.seed = json.load(open(ctx.replay)).get("seed", ctx.seed)      # generated schemas are a function of the seed
+    deep = (not ctx.quick() and not replay) or bool(replay and replay["schema_id"] > pc.DEEP_BASE)
+    batch = pc.run_batch(ctx, select_for(ctx, replay), want_defaults=True, formats=formats, deep=deep, n_generated=700)
     if replay and batch.cat[replay["schema_id"]]["schema"] != replay["schema"]:
         raise core.Inconclusive("the catalogue changed: schema %d is no longer the replay's schema" % replay["schema_id"])
     ir = ir_defaults(ctx, batch)
 
     # ---- the source schema accepts the defaults: FullDefault(root) through the reference validator of the format
     rendered = [u for u in batch.units.values() if u["status"] != "not_expressible"]
-    ref = sc.ref_validate(ctx, batch, [(u["pkg"], [batch.defaults[u["id"]][batch.cat[u["id"]]["schema"]["root"]]["full"]]) for u in rendered])
+    ref = pc.ref_validate(ctx, batch, [(u["pkg"], [pc.detok(batch.defaults[u["id"]][batch.cat[u["id"]]["schema"]["root"]]["full"])]) for u in rendered])
 
     # ---- run the real constructors
     gocmds, pycmds = [], []
@@ -112,12 +119,19 @@ def run(ctx):
                 gocmds.append({"op": "newobj", "id": "%s/%s" % (u["pkg"], obj), "type": "%s.%s" % (u["pkg"], obj)})
             if u.get("py") == "ok" and obj in u.get("py_classes", []):
                 pycmds.append({"op": "default", "id": "%s/%s" % (u["pkg"], obj), "module": u["pkg"], "cls": obj})
+            if pc.default_doc(sc.defs_of(schema), sc.defs_of(schema)[obj]):
+                # a second construction after the collections of a first instance were mutated in place: defaults are not shared
+                if u["status"] == "ok" and obj in u.get("constructors", []):
+                    gocmds.append({"op": "newobj2", "id": "%s/%s#2" % (u["pkg"], obj), "type": "%s.%s" % (u["pkg"], obj)})
+                if u.get("py") == "ok" and obj in u.get("py_classes", []):
+                    pycmds.append({"op": "default2", "id": "%s/%s#2" % (u["pkg"], obj), "module": u["pkg"], "cls": obj})
     gores = sc.run_driver(ctx, batch, gocmds, "new") if gocmds else {}
     pyres = pc.run_pydriver(ctx, batch, pycmds, "default") if pycmds else {}
 
     # ---- join
     tw = pc.PyTraceWriter(ctx, batch, "c10")
     order = []          # (pkg, obj, go, py, python verdict set)
+    second = {}         # (pkg, obj) -> (go2, py2, paths that fail only in the second construction)
     dropped = collections.Counter()
     ctor_errors = []
     no_ctor = collections.Counter()
@@ -148,7 +162,7 @@ def run(ctx):
                 if g.get("panic") or g.get("enc_err") or g.get("unknown_type") or "enc" not in g:
                     ctor_errors.append((u, obj, "go", g.get("panic") or g.get("enc_err") or "no encoding"))
                 else:
-                    go = (True, g["enc"])
+                    go = (True, pc.tok(g["enc"]))
             elif u["status"] == "ok":
                 no_ctor["go"] += 1
             p = pyres.get(key)
@@ -156,7 +170,7 @@ def run(ctx):
                 if not p["ok"]:
                     ctor_errors.append((u, obj, "python", "%s: %s" % (p.get("stage"), p.get("err"))))
                 else:
-                    py = (True, p["enc"])
+                    py = (True, pc.tok(p["enc"]))
             elif u.get("py") == "ok":
                 no_ctor["python"] += 1
             if not go[0] and not py[0]:
@@ -174,6 +188,27 @@ def run(ctx):
                 order.append((pkg, obj, go, py, verdict))
             else:
                 dropped["outside-number-universe"] += 1
+                continue
+            # the second construction (same oracle, same trace record kind; reported only where it differs from the first)
+            g2, p2 = gores.get(key + "#2"), pyres.get(key + "#2")
+            go2 = (True, pc.tok(g2["enc"])) if (go[0] and g2 is not None and "enc" in g2 and not g2.get("panic") and not g2.get("enc_err")) else (False, None)
+            py2 = (True, pc.tok(p2["enc"])) if (py[0] and p2 is not None and p2["ok"]) else (False, None)
+            if go2[0] or py2[0]:
+                v2 = set()
+                if go2[0]:
+                    v2 |= {("go",) + p_ for p_ in pc.fail_paths(S, t, go2[1])}
+                if py2[0]:
+                    v2 |= {("python",) + p_ for p_ in pc.fail_paths(S, t, py2[1])}
+                if go2[0] and py2[0]:
+                    v2 |= {("agree",) + p_ for p_ in pc.disagree_paths(S, t, go2[1], py2[1])}
+                v2 = {v for v in v2 if v[1:] not in skip}
+                if tw.add_default(pkg, obj, go2, py2, skip):
+                    order.append((pkg, obj + "#2", go2, py2, v2))
+                    second[(pkg, obj)] = (go2, py2, v2 - verdict)
+            for lang, first, res in (("go", go, g2), ("python", py, p2)):
+                if first[0] and res is not None and not (lang == "go" and go2[0]) and not (lang == "python" and py2[0]):
+                    ctor_errors.append((u, obj, lang, "second construction after mutating the first instance: %s" % (
+                        (res.get("panic") or res.get("enc_err") or "no encoding") if lang == "go" else "%s: %s" % (res.get("stage"), res.get("err")))))
 
     # ---- TLC recomputes every verdict on the recorded real encodings
     tlc_viol, tr = tw.validate()
@@ -192,12 +227,30 @@ def run(ctx):
     per_lang = collections.Counter()
     implied = 0
     samples = []
+    witnesses = collections.defaultdict(set)
     for pkg, obj, go, py, verdict in order:
+        if obj.endswith("#2"):
+            continue
         u = batch.units[pkg]
         entry = batch.cat[u["id"]]
         schema = entry["schema"]
         S = sc.defs_of(schema)
         t = S[obj]
+        for v in sorted(second.get((pkg, obj), (None, None, set()))[2]):
+            lang, path = v[0], v[1:]
+            if lang == "agree":
+                continue
+            f, _, toks = pc.field_at(S, t, path)
+            vt = pc.value_type(S, f) if f is not None else "struct-override"
+            val = pc.dig(second[(pkg, obj)][0 if lang == "go" else 1][1], path)
+            sig = "C10/%s/shared-between-instances/%s/%s" % (lang, pc.SIG_TYPE.get(vt, vt), u["fmt"])
+            witnesses[sig].add("%s@%s" % (entry["leaf"], entry["pos"]))
+            ctx.fail(sig, "%s %s@%s, object %s: after the lists / maps of a first %s were mutated in place, a SECOND one encodes field %s as %s, the "
+                          "schema declares %s (the first held it)" % (u["fmt"], entry["leaf"], entry["pos"], obj, "New%s()" % obj if lang == "go" else "%s()" % obj,
+                                                                       ".".join(path), sc.dumps(val[1]) if val[0] else "<absent>", sc.dumps(pc.expected_at(S, t, path))),
+                     {"schema_id": u["id"], "leaf": entry["leaf"], "pos": entry["pos"], "format": u["fmt"], "schema": schema, "schema_text": u["text"],
+                      "object": obj, "path": list(path), "language": lang, "second_construction": True,
+                      "real": {"go": second[(pkg, obj)][0][1], "python": second[(pkg, obj)][1][1]}})
         irs = [d for d in ir.get(pkg, {}).get("defaults", [])]
 
         skip = set(skip_paths(S, t, u["fmt"]))
@@ -221,17 +274,21 @@ def run(ctx):
             count(t, go[1], "go", pos0)
         if py[0]:
             count(t, py[1], "python", pos0)
+        reported = set()
         for v in sorted(verdict):
-            lang, path = v[0], v[1:]
+            lang, path = v[0], pc.report_path(S, t, v[1:])
+            if (lang, path) in reported:
+                continue
+            reported.add((lang, path))
             f, ft, toks = pc.field_at(S, t, path)
             if f is None:
                 raise core.Inconclusive("cannot locate %s in %s.%s" % (path, pkg, obj))
             vt = pc.value_type(S, f)
-            expected = pc.field_expect(S, f)
+            expected = pc.expected_at(S, t, path)
             gh, gv = pc.dig(go[1], path) if go[0] else (False, None)
             ph, pv = pc.dig(py[1], path) if py[0] else (False, None)
             if lang == "agree":
-                if ("go",) + path in verdict or ("python",) + path in verdict:
+                if any(w[0] in ("go", "python") and w[1:len(path) + 1] == path for w in verdict):
                     implied += 1          # a language that does not hold the default is reported for itself; the disagreement follows
                     continue
                 clause = "differ"
@@ -241,14 +298,21 @@ def run(ctx):
                           if d["path"].split(".")[-1] == path[-1] or d["path"] == ""})
             what = "%s %s@%s, object %s: " % (u["fmt"], entry["leaf"], entry["pos"], obj)
             if lang == "agree":
-                what += "Go encodes %s as %s, Python as %s (declared %s)" % (".".join(path), sc.dumps(gv) if gh else "<absent>",
-                                                                          sc.dumps(pv) if ph else "<absent>", sc.dumps(expected))
+                what += "Go encodes %s as %s, Python as %s (declared %s)" % (".".join(path), sc.dumps(pc.detok(gv)) if gh else "<absent>",
+                                                                          sc.dumps(pc.detok(pv)) if ph else "<absent>", sc.dumps(pc.detok(expected)))
             else:
                 has, val = (gh, gv) if lang == "go" else (ph, pv)
                 what += "%s encodes field %s as %s, the schema declares %s%s" % (
-                    "New%s()" % obj if lang == "go" else "%s()" % obj, ".".join(path), sc.dumps(val) if has else "<absent>",
-                    sc.dumps(expected), "; IR: " + "; ".join(irt) if irt else "")
-            ctx.fail("C10/%s/%s/%s/%s" % (lang, clause, pc.SIG_TYPE.get(vt, vt), u["fmt"]), what, {
+                    "New%s()" % obj if lang == "go" else "%s()" % obj, ".".join(path), sc.dumps(pc.detok(val)) if has else "<absent>",
+                    sc.dumps(pc.detok(expected)), "; IR: " + "; ".join(irt) if irt else "")
+            svt = pc.SIG_TYPE.get(vt, vt)
+            if pc.nullable_on(S, t, path) and u["fmt"] != "openapi":
+                # JSON Schema spells a nullable field oneOf:[T, null] + default, CUE `T | null | *d`: ONE construct (a disjunction with
+                # null carrying the default) whatever T is; OpenAPI's `nullable: true` is an attribute of the same schema object
+                svt = "nullable-oneOf" if u["fmt"] == "jsonschema" else "nullable-disjunction"
+            sig = "C10/%s/%s/%s/%s" % (lang, clause, svt, u["fmt"])
+            witnesses[sig].add("%s@%s" % (entry["leaf"], entry["pos"]))
+            ctx.fail(sig, what, {
                 "schema_id": u["id"], "leaf": entry["leaf"], "pos": entry["pos"], "format": u["fmt"], "schema": schema,
                 "schema_text": u["text"], "object": obj, "path": list(path), "language": lang, "position": toks or ["top"], "value_type": vt,
                 "expected_default_doc": batch.defaults[u["id"]][obj]["doc"], "expected_field": expected,
@@ -261,7 +325,12 @@ def run(ctx):
                             "ir_defaults": ["%s %s.%s: %s" % (d["what"], d["object"], d["path"], d["gotype"]) for d in irs][:6]})
     for u, obj, lang, err in ctor_errors:
         entry = batch.cat[u["id"]]
-        ctx.fail("C10/%s/constructor-error/%s/%s" % (lang, entry["leaf"], u["fmt"]),
+        # class of the error = its message without package / object names (stable across schemas and seeds)
+        slug = re.sub(r"@\S+", "", err.replace(u["pkg"], "").replace(obj, "X"))
+        slug = "-".join(re.findall(r"[a-z]+", slug.lower())[:9])
+        sig = "C10/%s/constructor-error/%s/%s" % (lang, slug, u["fmt"])
+        witnesses[sig].add("%s@%s:%s" % (entry["leaf"], entry["pos"], obj))
+        ctx.fail(sig,
                  "%s %s@%s: the default constructor of %s cannot be run / encoded in %s: %s" % (u["fmt"], entry["leaf"], entry["pos"], obj, lang, err),
                  {"schema_id": u["id"], "leaf": entry["leaf"], "pos": entry["pos"], "format": u["fmt"], "schema": entry["schema"],
                   "schema_text": u["text"], "object": obj, "path": [], "language": lang, "error": err})
@@ -328,7 +397,7 @@ def run(ctx):
 
     # ---- binding self-test: a genuine record that holds, then the same with one default's recorded value corrupted
     binding = None
-    good = [o for o in order if not o[4] and o[2][0] and o[3][0] and pc.default_doc(sc.defs_of(batch.cat[batch.units[o[0]]["id"]]["schema"]),
+    good = [o for o in order if not o[1].endswith("#2") and not o[4] and o[2][0] and o[3][0] and pc.default_doc(sc.defs_of(batch.cat[batch.units[o[0]]["id"]]["schema"]),
                                                                                     sc.defs_of(batch.cat[batch.units[o[0]]["id"]]["schema"])[o[1]])]
     if good and not replay:
         with_default = [o for o in good if any(pc.has_default(f) for f in sc.defs_of(batch.cat[batch.units[o[0]]["id"]]["schema"])[o[1]]["fields"])]
@@ -364,8 +433,10 @@ def run(ctx):
         "judged_fields_per_value_type_format": cells,
         "fields_the_format_cannot_declare": {"%s/%s" % k: v for k, v in skipped.items()},
         "unobservable_cells": {"%s/%s" % k: sorted(v) for k, v in unobservable.items() if judged[(k[0], k[1], "go")] + judged[(k[0], k[1], "python")] == 0},
+        "failure_witnesses": {k: sorted(v)[:40] for k, v in sorted(witnesses.items())},
         "per_position": dict(per_pos), "per_language": dict(per_lang),
         "agreement_failures_implied_by_one_language": implied,
+        "generated_schema_pool": batch.generated_pool, "generated_schemas_used": sum(1 for i in batch.ids if i > pc.GEN_BASE),
         "ir_default_dynamic_types": {k: dict(v) for k, v in ir_types.items()}, "ir_load_errors": dict(ir_errors),
         "unused_imports_removed": sorted({"%s:%s" % (batch.units[p]["fmt"], i) for p, i in batch.unused_imports_removed}),
         "timing": batch.timing, "binding_selftest": binding,
